@@ -27,13 +27,14 @@ theorem yuvToRgb_safe (B : Build) (g : Yuv) (hi : InvYuv g) : ∃ r, yuvToRgb B 
 the loop (the D3 repair), otherwise it succeeds and the result satisfies the invariant again -/
 theorem encode_safe (inp : Array V3) (w h : Nat) (cfg : Cfg) (ts : Nat) (hw : 0 < w) (hh : 0 < h) (hin : inp.size = w * h)
     (hss : cfg.ssx < 256 ∧ cfg.ssy < 256)
-    (fits : (Plane.new (w >>> cfg.ssx) (h >>> cfg.ssy) cfg.ssx cfg.ssy 0 0 ts).data.size < USIZE_MAX) :
+    (fits : (Plane.new (w >>> cfg.ssx) (h >>> cfg.ssy) cfg.ssx cfg.ssy 0 0 ts).data.size < USIZE_MAX)
+    (fitsY : (Plane.new w h 0 0 0 0 ts).data.size ≤ USIZE_MAX) :
     (¬ (w % 2 ^ cfg.ssx = 0 ∧ h % 2 ^ cfg.ssy = 0) → ypbprToYcbcr inp w h cfg ts = .panic .encDivisibility) ∧
     ((w % 2 ^ cfg.ssx = 0 ∧ h % 2 ^ cfg.ssy = 0) → ∃ g, ypbprToYcbcr inp w h cfg ts = .ok g ∧ InvYuv g) := by
   constructor
   · intro hn; unfold ypbprToYcbcr; simp only [hn, not_false_eq_true, if_true]
   · rintro ⟨a, b⟩
-    obtain ⟨g, e, i, _⟩ := C11.encode_spec inp w h cfg ts hw hh hin a b hss fits
+    obtain ⟨g, e, i, _⟩ := C11.encode_spec inp w h cfg ts hw hh hin a b hss fits fitsY
     exact ⟨g, e, i⟩
 
 /-- (iv) a frame whose chroma planes cannot cover the luma plane at the declared subsampling is rejected (the D2 repair) -/
@@ -65,5 +66,26 @@ theorem uncovered_plane_rejected (y u v : Plane) (cfg : Cfg) (ts : Nat) (h : ¬ 
 example : ∃ e, Yuv.new { data := Array.replicate 16 0, cfg := { stride := 4, allocHeight := 4, width := 4, height := 4, xdec := 0, ydec := 0, xpad := 0, ypad := 0, xorigin := 0, yorigin := 0 } }
     C12.exC C12.exC C12.exCfg 1 = .ok (.error e) :=
   undersized_chroma_rejected _ _ _ _ _ (by decide)
+
+/-- the allocation size of an accepted frame never wraps: `width * height` (what `ycbcr_to_ypbpr` passes to `vec!` and what it
+indexes the output with) is below 2^64 for every frame the constructor accepts (the D9 repair; the model of the decoder
+allocates `(width * height) % 2^64` pixels, as an optimised build does) -/
+theorem accepted_area_fits (y u v : Plane) (cfg : Cfg) (ts : Nat) (g : Yuv) (hg : Yuv.new y u v cfg ts = .ok (.ok g)) :
+    g.y.cfg.width * g.y.cfg.height ≤ USIZE_MAX :=
+  area_fits _ (inv_of_new y u v cfg ts g hg).cy
+
+/-- ... and a frame whose visible area does not fit a `usize` is rejected, whatever its stride and buffer -/
+theorem area_overflow_rejected (y u v : Plane) (cfg : Cfg) (ts : Nat) (h : USIZE_MAX < y.cfg.width * y.cfg.height) :
+    ∃ e, Yuv.new y u v cfg ts = .ok (.error e) := by
+  apply uncovered_plane_rejected
+  intro hc
+  have := area_fits _ hc.1
+  omega
+
+/-- the unrepaired defect D9 as a regression example: three 2 x 2^63 planes of stride 0 over a 2-sample buffer (every
+visible sample is in bounds, but `2 * 2^63` wraps to 0) are now rejected -/
+def d9Plane : Plane := { data := #[128, 128], cfg := { stride := 0, allocHeight := 9223372036854775808, width := 2, height := 9223372036854775808, xdec := 0, ydec := 0, xpad := 0, ypad := 0, xorigin := 0, yorigin := 0 } }
+example : ∃ e, Yuv.new d9Plane d9Plane d9Plane { C12.exCfg with ssx := 0, ssy := 0 } 1 = .ok (.error e) :=
+  area_overflow_rejected _ _ _ _ _ (by decide)
 
 end C07
